@@ -41,6 +41,7 @@ def start_models():
     nocov = remove_covariate_effect(remove_covariate_effect(remove_covariate_effect(pheno, "CL", "WGT"), "VC", "WGT"), "VC", "APGR")
     _starts["pheno_nocov"] = nocov
     _starts["pheno_nocov_oral"] = set_first_order_absorption(nocov)
+    _starts["pheno_blockif"] = _blockif_model(pheno)
     _starts["pred_nl"] = _pred_model()
     _starts["pred_dates"] = _pred_model(dates=True)
     lin = load_example_model("pheno_linear")
@@ -66,6 +67,24 @@ $OMEGA 0.2
 $SIGMA 1
 $ESTIMATION METHOD=1 INTER
 """
+
+
+def _blockif_model(pheno):
+    """pheno with a symbol that is assigned by a plain statement and then reassigned in both branches of a block IF (the first
+    branch carries the first eta, the ELSE branch assigns 0)"""
+    from pharmpy.modeling import read_model_from_string
+
+    code = pheno.code
+    code = code.replace("$ABBREV REPLACE ETA_CL=ETA(1)\n$ABBREV REPLACE ETA_VC=ETA(2)\n",
+                        "$ABBREV REPLACE ETA_FR=ETA(1)\n$ABBREV REPLACE ETA_CL=ETA(2)\n$ABBREV REPLACE ETA_VC=ETA(3)\n")
+    code = code.replace("$PK\nTVCL = THETA(1)*WGT\n",
+                        "$PK\nFRAC = 1\nIF (APGR.LT.5) THEN\n  FRAC = THETA(4)*EXP(ETA_FR)\nELSE\n  FRAC = 0\nEND IF\n"
+                        "TVCL = THETA(1)*WGT*(1 + FRAC)\n")
+    code = code.replace("$THETA  (-.99,.1) ; COVAPGR\n", "$THETA  (-.99,.1) ; COVAPGR\n$THETA  (0,0.4) ; POP_FRAC\n")
+    code = code.replace("$OMEGA  0.0309626 ; IIV_CL\n", "$OMEGA  0.02 ; IIV_FR\n$OMEGA  0.0309626 ; IIV_CL\n")
+    assert "ETA_FR" in code and "POP_FRAC" in code and "IIV_FR" in code and "FRAC = 0" in code
+    m = read_model_from_string(code)
+    return m.replace(dataset=pheno.dataset.copy(), datainfo=pheno.datainfo, name="pheno_blockif")
 
 
 def _pred_model(dates=False):
